@@ -509,6 +509,14 @@ func genFacts() {
 					strings.Contains(vtx, "_, err = db.Commit(ctx) if err != nil { table.commitFailed = true return fmt.Errorf(") &&
 					strings.Count(vc.text(vc.file), "table.commitFailed = true") == 2)
 		}
+		{
+			ot := kvs.text(kvs.fn("Open").Body)
+			f["openRelistsWhenSkipped"] = leanBool(strings.Contains(ot, "var listed []string for attempt := 0; ; attempt++ { versionsToLoad, err = listRoots(ctx, S3, rootPersist) if err != nil { return nil, err } if attempt > 0 && sameNames(versionsToLoad, listed) { break } listed = versionsToLoad tree, mergedRoots, unmergeableRoots, err = mergeRoots(ctx, versionsToLoad, cfg, crdtConfig, persists, when, opts.ForceRebranch, &kvVersion, skipUnreadable) if err != nil { return nil, fmt.Errorf(\"merge: %w\", err) } if unmergeableRoots == 0 || attempt == 2 { break } }") &&
+				kvs.text(kvs.fn("sameNames").Body) == "{ if len(a) != len(b) { return false } seen := make(map[string]bool, len(a)) for _, n := range a { seen[n] = true } for _, n := range b { if !seen[n] { return false } } return true }")
+			f["rowidCannotBeAssigned"] = leanBool(strings.Contains(vc.text(vc.fn("VirtualTable.Insert").Body), "if c.usesRowID { if values[c.KeyCol] != nil { return 0, errors.New("))
+			f["keyColumnFoldedLookup"] = leanBool(strings.Contains(vc.text(vc.fn("convertSchema").Body), "keyColName, ok = folded[foldASCII(schema.PrimaryKey[0])] if !ok { return fmt.Errorf(") &&
+				strings.Contains(vc.text(vc.fn("convertSchema").Body), "lower := foldASCII(name) if _, ok := folded[lower]; ok { return fmt.Errorf(\"duplicate column: %s\", name) } folded[lower] = name"))
+		}
 		f["emptyVersionForgotten"] = leanBool(strings.Contains(kvs.text(kvs.fn("DeleteHistoricVersions").Body), "s.crdt.Source = nil s.crdt.MergeSources = nil s.mergedRoots = map[string][]byte{}"))
 	}
 	rt := kvs.fn("DB.RemoveTombstones")
